@@ -201,6 +201,15 @@ def family(rng, tier):
     # ---- error paths of the network layer ----
     add("socket-errors", "servers=2",
         "fail socket 1 EMFILE;send 1 %s IN A rd;fail connect 1 ECONNREFUSED;send 2 %s IN A rd;fail sendto 1 ECONNRESET;send 3 %s IN A rd;rspall an=A:1.2.3.4;run" % (a, m, lg))
+    # the branch modelled in coq/Alloc/SendWork.v: a refused write closes a connection that
+    # carries other requests; they are requeued, then the request itself
+    add("write-refused-requeue-others", "servers=2 flags=noedns",
+        "send 1 %s IN A rd;send 2 %s IN A rd;fail sendto 1 ECONNRESET;send 3 %s IN A rd;qlen;rspall an=A:1.2.3.4;run" % (a, m, lg),
+        quick=True)
+    add("write-refused-tcp", "servers=2 flags=usevc,stayopen",
+        "query 1 %s IN A;run;query 2 %s IN A;run;fail sendto 1 EPIPE;query 3 %s IN A;run;rspall an=A:1.2.3.4;run;run" % (a, m, lg))
+    add("write-refused-single-server", "servers=1 tries=1",
+        "send 1 %s IN A rd;fail sendto 1 ECONNRESET;send 2 %s IN A rd;rspall an=A:1.2.3.4;run" % (a, m))
     add("tcp-reset", "servers=2 flags=usevc",
         "query 1 %s IN A;run;reset s0;run;rspall an=A:1.2.3.4;run" % m)
     add("bad-responses", "servers=1",
